@@ -2,7 +2,7 @@
    Lib/ShuffleTape.v, Lib/Counting.v, Proofs/BinomialLaw.v. *)
 From PV Require Import Lib.Base Model.Prng Model.Core.
 From mathcomp Require Import all_ssreflect.
-From PV Require Import Lib.Shuffle Lib.ShuffleTape Lib.Counting Proofs.BinomialLaw.
+From PV Require Import Lib.Shuffle Lib.ShuffleTape Lib.Counting Proofs.BinomialLaw Proofs.AllocUniform.
 Local Open Scope nat_scope.
 
 (* The answer space of one shuffle of n items, draws n = { (j_0..j_{n-1}) | j_i < n - i }, has n! elements, all
@@ -64,3 +64,15 @@ Proof.
     inversion H; subst. destruct (IH _ _ _ E) as [-> ->]. split; reflexivity.
 Qed.
 Print Assumptions C04_bits_bijective.
+
+(* allocations are equally likely: of the n! orders of the units exactly k!(n-k)! put a given k-subset A first --
+   the same number for every A -- so the uniform order of C04_rearrangements/fisher_yates_uniform induces the uniform
+   law on the C(n,k) treatment allocations of two_sample (any duplicate-free unit list, any subset, any k) *)
+Theorem C04_allocations_equally_likely : forall (T : eqType) (l A : seq T) k,
+  uniq l -> uniq A -> {subset A <= l} -> size A = k ->
+  count (fun p => perm_eq (take k p) A) (permutations l) = k`! * (size l - k)`!.
+Proof. exact alloc_count. Qed.
+Print Assumptions C04_allocations_equally_likely.
+Example C04_allocations_nonvacuous :
+  count (fun p => perm_eq (take 2 p) [:: 3; 1]) (permutations [:: 0; 1; 2; 3; 4]) = 12.
+Proof. vm_compute. reflexivity. Qed.
